@@ -118,10 +118,19 @@ func VxC01BackendsAgreeOnCommitment() {
 	hdr := func(n uint64) *core.Header { return &core.Header{Number: n, ProtocolVersion: ver} }
 	var newRoot felt.Felt
 	for blk, diff := range []*core.StateDiff{&d0, &d1} {
+		// a synced block carries the definitions of the classes it declares (without them the class trie
+		// is not touched)
+		var defs map[felt.Felt]core.ClassDefinition
+		for h := range diff.DeclaredV1Classes {
+			if defs == nil {
+				defs = map[felt.Felt]core.ClassDefinition{}
+			}
+			defs[h] = &core.SierraClass{}
+		}
 		// legacy
 		lold, err := legacy.Commitment(ver)
 		vx.Assert(err == nil, "legacy-commitment-readable")
-		vx.Assert(legacy.Update(hdr(uint64(blk)), &core.StateUpdate{OldRoot: &lold, StateDiff: diff}, nil, true) == nil, "legacy-update-ok")
+		vx.Assert(legacy.Update(hdr(uint64(blk)), &core.StateUpdate{OldRoot: &lold, StateDiff: diff}, defs, true) == nil, "legacy-update-ok")
 		lnew, err := legacy.Commitment(ver)
 		vx.Assert(err == nil, "legacy-commitment-readable")
 		// new
@@ -129,7 +138,7 @@ func VxC01BackendsAgreeOnCommitment() {
 		st, err := state.New(&newRoot, sdb, batch)
 		vx.Assert(err == nil, "new-state-opens")
 		old := newRoot
-		vx.Assert(st.Update(hdr(uint64(blk)), &core.StateUpdate{OldRoot: &old, StateDiff: diff}, nil, true) == nil, "new-update-ok")
+		vx.Assert(st.Update(hdr(uint64(blk)), &core.StateUpdate{OldRoot: &old, StateDiff: diff}, defs, true) == nil, "new-update-ok")
 		vx.Assert(batch.Write() == nil, "commit")
 		// the committed state is re-opened from the database (any non-zero root opens the stored tries)
 		one := felt.FromUint64[felt.Felt](1)
